@@ -89,6 +89,8 @@ class _Gen:
             node["outcome"] = "exc"
             if rng.random() < 0.3:
                 node["exc_noargs"] = True
+            elif rng.random() < 0.15:
+                node["exc_base"] = True
         if feat['inspect'] and rng.random() < 0.3:
             step = ["inspect", rng.choice(("parent", "parent", "top")) + ":"
                     + rng.choice(("list", "cycles", "topo", "stats",
@@ -100,7 +102,9 @@ class _Gen:
                 ([["sleep", 0.25]], [["sleep", 0.5]], [["yield", 2]],
                  [["sleep", rng.choice(GRID)]]))
         if feat['cleanup_exc'] and rng.random() < 0.3:
-            node["cleanup_outcome"] = "exc"
+            node["cleanup_outcome"] = rng.choice(("exc", "exc", "ret"))
+        if feat['slow_handlers'] and rng.random() < 0.15:
+            node["handler_absorbs"] = True
         if feat['slow_handlers'] and rng.random() < 0.5:
             node["handler"] = rng.choice(
                 ([["sleep", 0.25]], [["sleep", 0.5]], [["sleep", 1.0]],
@@ -119,6 +123,8 @@ class _Gen:
                 "members": [], "edges": [],
                 "build": rng.choice(("ctor", "ctor", "add", "scheduler_kw",
                                      "sequence"))}
+        if rng.random() < 0.12:
+            node["watch"] = rng.choice(("default", "quiet"))
         if rng.random() < 0.2:
             node["late_attrs"] = True
             if rng.random() < 0.6:
